@@ -2,7 +2,7 @@
 
 from ..common import model_walk, run_kinds
 from ..core import AnalysisError
-from ..ir import conj, show
+from ..ir import conj, has_guard, show
 from ..kinds import count_of
 from ..rules_heap import _sub, lin, lin_eq
 from ..rules_ift import Rep, split_candidate, weight_mentions, weight_of
@@ -118,15 +118,18 @@ def check_scan(chk, rep0, repo, pre="", only=None):
     n_nodes = ("attr", G, "n_nodes")
     sizes = [n_nodes, ("call", ("builtin", "len"), (("attr", G, "nodes"),), ()),
              ("call", ("builtin", "len"), (("attr", G, "idx_nodes"),), ())]
-    view = ordered_scan(w, bs, sizes)
+    view = ordered_scan(w, bs, sizes, orders=(("attr", G, "idx_nodes"),))
     prob = dict(view.problems)
     rep.fn("SCAN-position", fn, "one position variable advances by exactly 1 per iteration, unconditionally",
            "position" not in prob, prob.get("position", ""), line=li.line)
     if "position" in prob:
         return
+    # two spellings of the start: the first sample of the order seeds the minimum and the scan starts at position 1, or
+    # the minimum starts at FLOAT_MAX and the scan starts at position 0 (every sample goes through the same test)
+    from_zero = view.first == ("const", 0) and bs.init == ("K", "FLOAT_MAX")
     rep.fn("SCAN-start", fn, "the scan starts right after the first sample of the order",
-           view.first == ("const", 1), f"first position examined is {show(view.first) if view.first else prob.get('start')}",
-           line=li.line)
+           view.first == ("const", 1) or from_zero,
+           f"first position examined is {show(view.first) if view.first else prob.get('start')}", line=li.line)
     J = view.prev
 
     def order(e):
@@ -136,7 +139,7 @@ def check_scan(chk, rep0, repo, pre="", only=None):
         return ("idx", ("attr", G, "nodes"), t)
 
     t0 = order(("const", 0))
-    nxt = order(view.pos)
+    nxt = view.examined(("attr", G, "idx_nodes"))
     cur = order(J) if J is not None else None
 
     def cand_ok(v, t):
@@ -144,11 +147,11 @@ def check_scan(chk, rep0, repo, pre="", only=None):
         return wgt is not None and weight_of(wgt) and weight_mentions(wgt, node(t), x)
 
     rep.fn("SCAN-init", fn, f"{bs.best} starts as max(cost(t0), w(t0, x)) with t0 = idx_nodes[0]",
-           cand_ok(bs.init, t0), f"initial value is '{show(bs.init)[:200]}'", line=li.line)
+           from_zero or cand_ok(bs.init, t0), f"initial value is '{show(bs.init)[:200]}'", line=li.line)
     rep.fn("SCAN-candidate", fn, "candidate is max(cost(t), w(t, x)) with t = idx_nodes[position + 1]",
            cand_ok(bs.cand, nxt), f"candidate is '{show(bs.cand)[:200]}'", line=li.line)
     from ..schema import weight_oriented
-    for what, v, t in (("initial value", bs.init, t0), ("candidate", bs.cand, nxt)):
+    for what, v, t in ((("initial value", bs.init, t0),) if not from_zero else ()) + (("candidate", bs.cand, nxt),):
         wgt = split_candidate(v, ("attr", node(t), "cost"), "max")
         if wgt is not None and weight_of(wgt) and weight_mentions(wgt, node(t), x):
             rep.fn("SCAN-orientation", fn, f"{what}: the arc weight is d(training sample, query) in this order",
@@ -158,11 +161,60 @@ def check_scan(chk, rep0, repo, pre="", only=None):
                    "step uses)", line=li.line)
     rep.fn("SCAN-accept", fn, f"acceptance: candidate < {bs.best}", bs.relation in ("cand<best", "cand<=best"),
            f"acceptance relation is {bs.relation} (arg-min needs candidate below the running minimum)", line=li.line)
+    # tests around the acceptance may only skip candidates that could not be accepted anyway: a NaN weight (every `<`
+    # with it is false) or a weight that is not below the running minimum (then max(cost, w) is not below it either)
+    from ..ir import mk_not
+    wgt_c = split_candidate(bs.cand, ("attr", node(nxt), "cost"), "max")
+    arms = []
+    if wgt_c is not None:
+        arms = [wgt_c] + ([wgt_c[2], wgt_c[3]] if wgt_c[0] == "sel" else [])
+    Bm = ("phi", li.lid, bs.best)
+
+    def harmless(t):
+        if t[0] == "or":
+            return all(harmless(u) for u in t[1])
+        if t[0] == "and":
+            return any(harmless(u) for u in t[1])
+        if t[0] == "call" and t[1] in (("mod", "numpy.isnan"), ("mod", "math.isnan")) and len(t[2]) == 1 and not t[3]:
+            return t[2][0] in arms
+        if t[0] == "cmp" and t[2] == Bm and t[3] in arms:
+            return t[1] == "<" or (t[1] == "<=" and bs.relation == "cand<best")
+        return False
+
+    for g in bs.outer_guards:
+        rep.fn("SCAN-skip", fn, f"candidates are skipped only when they could not win: {show(mk_not(g))[:120]}",
+               harmless(mk_not(g)),
+               f"a training sample is left out of the minimum under '{show(mk_not(g))[:200]}' although max(cost, weight) "
+               "may be below the running minimum there", line=li.line)
     # companions
     labs = {n: v for n, v in bs.companions.items()
             if v[1] == ("attr", node(nxt), "predicted_label") or v[0] == ("attr", node(t0), "predicted_label")}
+    # direct form: no label variable - the label is written to the query node with the first offer and again with
+    # every accepted one (the last write is the winner's)
+    stores = [e for e in w.events if e.kind == "store" and e.target == ("attr", x, "predicted_label")]
+    direct = False
+    if not labs and len(stores) == 2:
+        from ..ir import facts
+        inner = [e for e in w.events if li.lid in e.loops]
+        seed = [e for e in stores if e.loops == li.loops and e.value == ("attr", node(t0), "predicted_label")
+                and facts(e.guards) == facts(per.guards) and inner and w.events.index(e) < w.events.index(inner[0])]
+        acc = [e for e in stores if e.loops == li.loops + (li.lid,) and e.value == ("attr", node(nxt), "predicted_label")
+               and has_guard(e.guards, bs.cond)
+               and not [t for t in facts(e.guards) if t not in facts(li.guards) and t not in facts(((bs.cond, True),))
+                        and (li.cond is None or t not in facts(((li.cond, True),)))]]
+        direct = len(seed) == 1 and len(acc) == 1
+    # winner form: the node travels with the minimum and its label is read after the scan
+    winner = False
+    if not labs and not direct and len(stores) == 1:
+        from ..ir import facts
+        e = stores[0]
+        for cname, v in bs.companions.items():
+            after_w = ("phi", li.lid, cname)
+            if v == (t0, nxt) and e.value == ("attr", node(after_w), "predicted_label") and e.loops == li.loops \
+                    and facts(e.guards) == facts(per.guards) and e.seq > li.last_seq:
+                winner = True
     rep.fn("SCAN-label", fn, "the label travels with the minimum (same node, both at start and on improvement)",
-           len(labs) == 1 and all(v == (("attr", node(t0), "predicted_label"), ("attr", node(nxt), "predicted_label"))
+           direct or winner or len(labs) == 1 and all(v == (("attr", node(t0), "predicted_label"), ("attr", node(nxt), "predicted_label"))
                                   for v in labs.values()),
            f"label companions: { {n: (show(a)[:60], show(b)[:60]) for n, (a, b) in bs.companions.items()} }",
            line=li.line)
@@ -197,8 +249,7 @@ def check_scan(chk, rep0, repo, pre="", only=None):
            f"{len(view.bound)} bound test(s) found", line=li.line)
     # result
     after = ("phi", li.lid, next(iter(labs))) if labs else None
-    stores = [e for e in w.events if e.kind == "store" and e.target == ("attr", x, "predicted_label")]
-    ok = len(stores) == 1 and after is not None and stores[0].value == after and stores[0].loops == li.loops
+    ok = direct or winner or len(stores) == 1 and after is not None and stores[0].value == after and stores[0].loops == li.loops
     rep.fn("SCAN-store", fn, "the winning label is stored on the query node of the same loop index", ok,
            f"{len(stores)} store(s) to the query node's predicted_label", line=per.line)
     from ..rules_premise import main_returns
